@@ -134,7 +134,7 @@ PLANS = {
     },
     "C11": {
         "drive": [{"kind": "repr", "count": {"quick": 3600, "thorough": 40000}}, {"kind": "serde_repr", "count": {"quick": 1500, "thorough": 16000}}, {"kind": "pairs_repr", "count": {"quick": 2400, "thorough": 30000}, "ops": ["compare", "contains", "concat", "array_intersection", "array_except", "array_overlap"]}],
-        "gen": [gen("acc11", "acc11", ACC_OPS + ["to_string", "to_pretty_string", "lazy", "comparable_all"], rp="{1, 2, 3}"),
+        "gen": [gen("acc11", "acc11", ACC_OPS + ["to_string", "to_pretty_string", "lazy", "comparable_all"], rp="{0, 1, 2, 3}"),
                 gen("edit11", "edit11", EDIT_OPS + ["array_distinct"], rp="{0, 1, 3}"),
                 gen("pairs11", "pairs11", ["compare", "contains", "concat", "array_intersection", "array_except", "array_overlap"], rp="{0, 2, 3}"),
                 {"name": "pathtext", "module": "GenPath", "constants": {"Family": '"text"', "MaxSteps": "0"}}],
